@@ -240,7 +240,7 @@ def mk_block_classes(blocks, binary=False):
                     next(iter(a), None)
             for chunk in payload(self):
                 file.write(chunk)
-            return True
+            return write_result(self)
 
         def eq(self, o):
             return isinstance(o, self.__class__) and payload(o) == payload(self)
@@ -283,6 +283,14 @@ def reports(obj, complete):
     the element was complete, the others always report True"""
     digits = "".join(ch for ch in type(obj).__name__ if ch.isdigit())
     return bool(complete) if digits and int(digits) % 3 == 1 else True
+
+
+def write_result(obj):
+    """what a user-written write() returns: the framework documents a success flag and ignores it;
+    many real elements have no return statement at all.  By type name: True, None, True, False, ..."""
+    digits = "".join(ch for ch in type(obj).__name__ if ch.isdigit())
+    k = int(digits) % 4 if digits else 0
+    return None if k == 1 else (False if k == 3 else True)
 
 
 def own_slot(i):
@@ -329,10 +337,10 @@ def mk_section_classes(secs):
                     if len(line) == 0:
                         break
                     lines.append(line)
-                    if _p.search(line) is not None:
+                    if _p.search(as_text(line)) is not None:
                         break
                 keep(self, lines)
-                return reports(self, len(lines) > 0 and _p.search(lines[-1]) is not None)
+                return reports(self, len(lines) > 0 and _p.search(as_text(lines[-1])) is not None)
 
         def write(self, file: IO, *args, **kwargs):
             for a in args:
@@ -343,7 +351,7 @@ def mk_section_classes(secs):
                     next(iter(a), None)
             for chunk in payload(self):
                 file.write(chunk)
-            return True
+            return write_result(self)
 
         def eq(self, o):
             return isinstance(o, self.__class__) and payload(o) == payload(self)
@@ -352,11 +360,17 @@ def mk_section_classes(secs):
     return out
 
 
-def mk_section_file(secs, classes=None, io=None):
+def as_text(line):
+    """a line of a binary section file seen as text (one character per byte): the section family reads
+    binary storage line by line as well, only the line type differs"""
+    return line.decode("latin-1") if isinstance(line, (bytes, bytearray)) else line
+
+
+def mk_section_file(secs, classes=None, io=None, binary=False):
     from cfinterface.files.sectionfile import SectionFile
 
     classes = classes if classes is not None else mk_section_classes(secs)
-    ns = {"SECTIONS": classes, "STORAGE": text_storage("TEXT", len(classes)), "__slots__": []}
+    ns = {"SECTIONS": classes, "STORAGE": "BINARY" if binary else text_storage("TEXT", len(classes)), "__slots__": []}
     if io:
         ns["ENCODING"] = io["enc"]
     return derived(type("SF", (SectionFile,), ns), len(classes)), classes
@@ -369,8 +383,17 @@ def enc_selem(e, classes):
         d = e.data
         if d is None:
             return {"dflt_none": True}
-        return {"dflt": codec.enc_str(d)}
+        return {"dflt": codec.enc_str(as_text(d))}
     for i, c in enumerate(classes):
         if type(e) is c:
-            return {"cls": i, "raw": [codec.enc_str(x) for x in payload(e)]}
+            return {"cls": i, "raw": [codec.enc_str(as_text(x)) for x in payload(e)]}
     return {"cls": 999, "raw": []}
+
+
+def nlines(rng, hi, lo=0):
+    """number of lines of a generated content: usually small, one content in twenty is long (several
+    hundred to several thousand characters - longer than a file name or a path may be, longer than
+    one I/O buffer)"""
+    if rng.random() < 0.05:
+        return rng.randrange(40, 400)
+    return rng.randrange(lo, hi)
